@@ -651,3 +651,216 @@ Proof.
       - destruct (p_state p); discriminate. }
     destruct (p_state p) eqn:ES; first [apply HNE; discriminate | discriminate].
 Qed.
+
+(* ------------------------------------------------------------------------------------------------ *)
+(* 8. flow-limit bypass: "[ ? ] , [ ? ] , ... [ ? ] ]]]" nests d sequences while the scanner's flow    *)
+(*    level never exceeds 1 (flow_sequence_entry_mapping_key consumes the "]" that ends the empty key)  *)
+(* ------------------------------------------------------------------------------------------------ *)
+Definition null_ev : event := EScalar [126%N] Plain 0%N None.        (* empty_scalar: "~" *)
+Fixpoint qnode_evs (n : nat) : list event :=
+  match n with
+  | O => []
+  | S k => ESequenceStart 0%N None :: EMappingStart 0%N None :: null_ev :: null_ev :: EMappingEnd
+           :: qnode_evs k ++ [ESequenceEnd]
+  end.
+Definition qflow_events (d : nat) : list event :=
+  EStreamStart :: EDocumentStart false :: qnode_evs d ++ [EDocumentEnd; EStreamEnd].
+
+(* tokens after "[ ?" of a node with k further groups nested in it; [rest] follows its closing "]" *)
+Fixpoint qrest (k : nat) (rest : list token) : list token :=
+  match k with
+  | O => tk TFlowSequenceEnd :: tk TFlowSequenceEnd :: rest
+  | S j => tk TFlowSequenceEnd :: tk TFlowEntry :: tk TFlowSequenceStart :: tk TKey
+           :: qrest j (tk TFlowSequenceEnd :: rest)
+  end.
+
+Lemma q_first_entry keep toks stk :
+  state_machine (mkp keep (tk TKey :: toks) (Some (tk TFlowSequenceStart)) stk SFlowSequenceFirstEntry)
+  = Parser.Ok ((EMappingStart 0%N None, sp0), mkp keep toks None stk SFlowSequenceEntryMappingKey).
+Proof. reflexivity. Qed.
+Lemma q_map_key keep toks stk :
+  state_machine (mkp keep (tk TFlowSequenceEnd :: toks) None stk SFlowSequenceEntryMappingKey)
+  = Parser.Ok ((null_ev, sp0), mkp keep toks None stk SFlowSequenceEntryMappingValue).
+Proof. reflexivity. Qed.
+Lemma q_map_value_end keep toks stk :
+  state_machine (mkp keep (tk TFlowSequenceEnd :: toks) None stk SFlowSequenceEntryMappingValue)
+  = Parser.Ok ((null_ev, sp0), mkp keep toks (Some (tk TFlowSequenceEnd)) stk (SFlowSequenceEntryMappingEnd mk00)).
+Proof. reflexivity. Qed.
+Lemma q_map_value_entry keep toks stk :
+  state_machine (mkp keep (tk TFlowEntry :: toks) None stk SFlowSequenceEntryMappingValue)
+  = Parser.Ok ((null_ev, sp0), mkp keep toks (Some (tk TFlowEntry)) stk (SFlowSequenceEntryMappingEnd mk00)).
+Proof. reflexivity. Qed.
+Lemma q_map_end keep toks c stk :
+  state_machine (mkp keep toks c stk (SFlowSequenceEntryMappingEnd mk00))
+  = Parser.Ok ((EMappingEnd, sp0), mkp keep toks c stk SFlowSequenceEntry).
+Proof. reflexivity. Qed.
+Lemma q_seq_end_cached keep toks c stk :
+  state_machine (mkp keep toks (Some (tk TFlowSequenceEnd)) (c :: stk) SFlowSequenceEntry)
+  = Parser.Ok ((ESequenceEnd, sp0), mkp keep toks None stk c).
+Proof. reflexivity. Qed.
+Lemma q_seq_end keep toks c stk :
+  state_machine (mkp keep (tk TFlowSequenceEnd :: toks) None (c :: stk) SFlowSequenceEntry)
+  = Parser.Ok ((ESequenceEnd, sp0), mkp keep toks None stk c).
+Proof. reflexivity. Qed.
+Ltac pstep L := rewrite parse_all_S; cbn [mkp p_state]; unfold step_result; rewrite L.
+
+Lemma qnode_run : forall k keep rest c stk st,
+  exists p1,
+    parse_node (mkp keep (tk TKey :: qrest k rest) (Some (tk TFlowSequenceStart)) (c :: stk) st) false false
+      = Parser.Ok ((ESequenceStart 0%N None, sp0), p1)
+    /\ forall fuel se acc,
+         parse_all (5 + 6 * k + fuel) p1 se ((ESequenceStart 0%N None, sp0) :: acc)
+         = parse_all fuel (mkp keep rest None stk c) se (rev (evsp (qnode_evs (S k))) ++ acc).
+Proof.
+  induction k as [|k IH]; intros keep rest c stk st.
+  - exists (mkp keep (tk TKey :: qrest 0 rest) (Some (tk TFlowSequenceStart)) (c :: stk) SFlowSequenceFirstEntry).
+    split; [reflexivity|]. intros fuel se acc.
+    replace (5 + 6 * 0 + fuel) with (S (S (S (S (S fuel))))) by lia.
+    cbn [qrest].
+    pstep q_first_entry. pstep q_map_key. pstep q_map_value_end. pstep q_map_end. pstep q_seq_end_cached.
+    reflexivity.
+  - exists (mkp keep (tk TKey :: qrest (S k) rest) (Some (tk TFlowSequenceStart)) (c :: stk) SFlowSequenceFirstEntry).
+    split; [reflexivity|]. intros fuel se acc.
+    replace (5 + 6 * S k + fuel) with (S (S (S (S (S (5 + 6 * k + S fuel)))))) by lia.
+    cbn [qrest].
+    pstep q_first_entry. pstep q_map_key. pstep q_map_value_entry. pstep q_map_end.
+    rewrite parse_all_S. cbn [mkp p_state]. unfold step_result.
+    change (state_machine (mkp keep (tk TFlowSequenceStart :: tk TKey :: qrest k (tk TFlowSequenceEnd :: rest))
+                               (Some (tk TFlowEntry)) (c :: stk) SFlowSequenceEntry))
+      with (parse_node (mkp keep (tk TKey :: qrest k (tk TFlowSequenceEnd :: rest)) (Some (tk TFlowSequenceStart))
+                            (SFlowSequenceEntry :: c :: stk) SFlowSequenceEntry) false false).
+    destruct (IH keep (tk TFlowSequenceEnd :: rest) SFlowSequenceEntry (c :: stk) SFlowSequenceEntry) as (p1 & Hp & Hrun).
+    rewrite Hp, Hrun.
+    pstep q_seq_end.
+    f_equal. cbn [qnode_evs]. unfold evsp.
+    repeat first [rewrite map_app | rewrite rev_app_distr | progress cbn [map rev app] | rewrite <- app_assoc].
+    reflexivity.
+Qed.
+
+(* the stream in nested form; d = S k groups *)
+Definition qflow_tokens_nested (k : nat) : list token :=
+  tk TStreamStart :: tk TFlowSequenceStart :: tk TKey :: qrest k [tk TStreamEnd].
+
+Lemma q_doc_start keep toks :
+  state_machine (mkp keep (tk TFlowSequenceStart :: toks) None [] SImplicitDocumentStart)
+  = Parser.Ok ((EDocumentStart false, sp0), mkp keep toks (Some (tk TFlowSequenceStart)) [SDocumentEnd] SBlockNode).
+Proof. reflexivity. Qed.
+Lemma q_doc_end keep :
+  state_machine (mkp keep [tk TStreamEnd] None [] SDocumentEnd)
+  = Parser.Ok ((EDocumentEnd, sp0), mkp keep [] (Some (tk TStreamEnd)) [] SDocumentStart).
+Proof. destruct keep; reflexivity. Qed.
+
+Lemma qflow_tokens_run k keep se fuel :
+  parse_all (6 * k + 11 + fuel) (init_parser (qflow_tokens_nested k) keep) se [] = (evsp (qflow_events (S k)), PDone).
+Proof.
+  unfold qflow_tokens_nested.
+  replace (6 * k + 11 + fuel) with (S (S (S (5 + 6 * k + S (S (S fuel)))))) by lia.
+  rewrite parse_all_S. cbn [init_parser p_state]. unfold step_result. rewrite stream_start_step.
+  pstep q_doc_start.
+  rewrite parse_all_S. cbn [mkp p_state]. unfold step_result.
+  change (state_machine (mkp keep (tk TKey :: qrest k [tk TStreamEnd]) (Some (tk TFlowSequenceStart)) [SDocumentEnd] SBlockNode))
+    with (parse_node (mkp keep (tk TKey :: qrest k [tk TStreamEnd]) (Some (tk TFlowSequenceStart)) [SDocumentEnd] SBlockNode) true false).
+  destruct (qnode_run k keep [tk TStreamEnd] SDocumentEnd [] SBlockNode) as (p1 & Hp & Hrun).
+  (* at the top level the node is parsed in block context; a flow sequence start is handled alike *)
+  assert (Hp' : parse_node (mkp keep (tk TKey :: qrest k [tk TStreamEnd]) (Some (tk TFlowSequenceStart)) [SDocumentEnd] SBlockNode) true false
+                = Parser.Ok ((ESequenceStart 0%N None, sp0), p1)) by (rewrite <- Hp; reflexivity).
+  rewrite Hp', Hrun.
+  pstep q_doc_end. pstep stream_end_step.
+  rewrite parse_all_S. cbn [mkp p_state].
+  f_equal. unfold qflow_events, evsp.
+  repeat first [rewrite map_app | rewrite rev_app_distr | rewrite rev_involutive | progress cbn [map rev app] | rewrite <- app_assoc].
+  reflexivity.
+Qed.
+
+(* flat form:  StreamStart ([ ? ] ,)^k [ ? ] ]^(k+1) StreamEnd *)
+Lemma qrest_flat k : forall rest,
+  tk TFlowSequenceStart :: tk TKey :: qrest k rest
+  = qflow_groups k ++ qflow_group ++ repeat (tk TFlowSequenceEnd) (S k) ++ rest.
+Proof.
+  induction k as [|k IH]; intros rest; [reflexivity|].
+  cbn [qrest qflow_groups qflow_group app]. do 4 f_equal. rewrite IH. cbn [qflow_group app].
+  do 4 f_equal. cbn [repeat app]. f_equal. rewrite repeat_snoc_cons. reflexivity.
+Qed.
+
+Lemma qflow_tokens_nested_flat k : qflow_tokens_nested k = qflow_tokens (S k).
+Proof. unfold qflow_tokens_nested, qflow_tokens. cbn [Nat.pred]. rewrite qrest_flat. reflexivity. Qed.
+
+Lemma qflow_groups_length k : length (qflow_groups k) = 4 * k.
+Proof. induction k as [|k IH]; [reflexivity|]. cbn [qflow_groups qflow_group app length]. rewrite IH. lia. Qed.
+
+Lemma qflow_tokens_length d : 1 <= d -> length (qflow_tokens d) = 5 * d + 1.
+Proof.
+  intros H. destruct d as [|k]; [lia|]. unfold qflow_tokens. cbn [Nat.pred length].
+  rewrite !app_length, qflow_groups_length, repeat_length. cbn [qflow_group length]. lia.
+Qed.
+
+Lemma qflow_tokens_accepted d keep se :
+  1 <= d -> parse_tokens (qflow_tokens d) se keep = (evsp (qflow_events d), PDone).
+Proof.
+  intros H. destruct d as [|k]; [lia|]. unfold parse_tokens. rewrite qflow_tokens_length by lia.
+  rewrite <- qflow_tokens_nested_flat.
+  replace (4 * (5 * S k + 1) + 40) with (6 * k + 11 + (14 * k + 53)) by lia.
+  apply (qflow_tokens_run k keep se).
+Qed.
+
+(* the scanner's flow level along the stream never exceeds 1 *)
+Lemma flow_fold_groups k : forall m,
+  fold_left tok_flow_step (qflow_groups k) (0, m) = (0, match k with O => m | S _ => Nat.max m 1 end).
+Proof.
+  induction k as [|k IH]; intros m; [reflexivity|].
+  cbn [qflow_groups qflow_group app fold_left tok_flow_step snd tk Nat.pred]. rewrite IH.
+  f_equal. destruct k; lia.
+Qed.
+
+Lemma flow_fold_closers n : forall m, fold_left tok_flow_step (repeat (tk TFlowSequenceEnd) n) (0, m) = (0, m).
+Proof. induction n as [|n IH]; intros m; [reflexivity|]. cbn [repeat fold_left tok_flow_step snd tk Nat.pred]. apply IH. Qed.
+
+Lemma qflow_tokens_flow_level d : 1 <= d -> tok_flow_max (qflow_tokens d) = 1.
+Proof.
+  intros H. destruct d as [|k]; [lia|]. unfold tok_flow_max, qflow_tokens. cbn [Nat.pred].
+  cbn [fold_left tok_flow_step snd tk]. rewrite !fold_left_app, flow_fold_groups.
+  cbn [qflow_group fold_left tok_flow_step snd tk Nat.pred repeat].
+  rewrite flow_fold_closers. cbn [fold_left tok_flow_step snd tk]. destruct k; cbn [snd]; lia.
+Qed.
+
+(* ... while the events nest d + 1 deep (d sequences and the mapping of the innermost "?") *)
+Lemma qnode_evs_depth n : forall c m tail,
+  depth_run c m (qnode_evs n ++ tail)
+  = depth_run c (match n with O => m | S _ => Nat.max m (c + n + 1) end) tail.
+Proof.
+  induction n as [|n IH]; intros c m tail; [reflexivity|].
+  cbn [qnode_evs app]. rewrite !depth_run_cons. cbn [depth_step null_ev fst snd Nat.pred].
+  rewrite <- app_assoc, IH. cbn [app]. rewrite depth_run_cons. cbn [depth_step fst snd Nat.pred].
+  f_equal. destruct n; lia.
+Qed.
+
+Lemma qflow_events_depth d : 1 <= d -> max_nesting (qflow_events d) = d + 1.
+Proof.
+  intros H. unfold max_nesting, qflow_events.
+  rewrite !depth_run_cons. cbn [depth_step fst snd]. rewrite qnode_evs_depth.
+  rewrite !depth_run_cons. cbn [depth_step fst snd]. rewrite depth_run_nil. cbn [snd]. destruct d; lia.
+Qed.
+
+(* "an accepted token stream whose flow level stays within L nests at most L (+1) deep" is false for every L >= 1 *)
+Definition flow_limit_bounds_nesting (L : nat) : Prop :=
+  forall toks se keep,
+    tok_flow_max toks <= L -> snd (parse_tokens toks se keep) = PDone ->
+    max_nesting (evs_of (fst (parse_tokens toks se keep))) <= L + 1.
+
+Lemma flow_limit_bypass d keep se :
+  1 <= d ->
+  length (qflow_tokens d) = 5 * d + 1
+  /\ tok_flow_max (qflow_tokens d) = 1
+  /\ parse_tokens (qflow_tokens d) se keep = (evsp (qflow_events d), PDone)
+  /\ max_nesting (qflow_events d) = d + 1.
+Proof.
+  intros H. split; [apply qflow_tokens_length; exact H|]. split; [apply qflow_tokens_flow_level; exact H|].
+  split; [apply qflow_tokens_accepted; exact H|]. apply qflow_events_depth; exact H.
+Qed.
+
+Lemma flow_limit_does_not_bound_nesting : forall L, 1 <= L -> ~ flow_limit_bounds_nesting L.
+Proof.
+  intros L HL HB. specialize (HB (qflow_tokens (S L)) SEnded false).
+  destruct (flow_limit_bypass (S L) false SEnded) as (_ & F & E & D); [lia|].
+  rewrite E in HB. cbn [fst snd] in HB. rewrite evs_of_evsp, D, F in HB. specialize (HB HL eq_refl). lia.
+Qed.
